@@ -226,3 +226,43 @@ Proof.
   - left. apply N.eqb_eq in E0. split; [exact E0|reflexivity].
   - right. apply N.eqb_neq in E0. split; [exact E0|reflexivity].
 Qed.
+
+(* ------------------------------------------------------- the length limit *)
+Lemma line_stage_crlf_long l r :
+  ~ In CRb l -> (max_line < lenN l)%N ->
+  line_stage ECrlf false (l ++ CRb :: LFb :: r) = Fail HTTPExc.
+Proof.
+  intros Hn Hl. unfold line_stage. cbn [andb skipped scan].
+  rewrite (scan_crlf_line l r Hn).
+  assert (E : N.ltb max_line (lenN l) = true) by (apply N.ltb_lt; exact Hl).
+  rewrite E. reflexivity.
+Qed.
+
+Lemma lines_feeds_concat m skip reads :
+  feeds (line_stage m) (Live skip []) reads = feed (line_stage m) (Live skip []) (concat reads).
+Proof.
+  apply feeds_concat.
+  - intros s b s' b' o. apply line_shrinks.
+  - intros s b s' b' o c. apply line_stable_step.
+  - intros s b k c. apply line_stable_fail.
+  - cbn. apply line_need_nil.
+Qed.
+
+(* The verdict on a CRLF-terminated line (chunk-size line, chunk-end line)
+   depends on its length only, not on where the reads cut the stream -- in
+   particular not on a cut between the CR and the LF that end it: a line of at
+   most MAX_LINE_SIZE bytes is delivered, a longer one raises LineTooLong. *)
+Theorem crlf_line_limit_cut_independent : forall reads line rest,
+  ~ In CRb line -> concat reads = line ++ CRLFb ++ rest ->
+  ((lenN line <= max_line)%N ->
+     exists p os, feeds (line_stage ECrlf) (Live false []) reads = (p, line :: os)) /\
+  ((max_line < lenN line)%N ->
+     feeds (line_stage ECrlf) (Live false []) reads = (Dead HTTPExc, [])).
+Proof.
+  intros reads line rest Hn E. rewrite lines_feeds_concat, E. unfold CRLFb. cbn [feed app].
+  split; intros Hl.
+  - rewrite run_S, (line_stage_crlf_line line rest Hn Hl).
+    destruct (run (line_stage ECrlf) (length (line ++ CRb :: LFb :: rest)) false rest) as [p os].
+    exists p, os. reflexivity.
+  - rewrite run_S, (line_stage_crlf_long line rest Hn Hl). reflexivity.
+Qed.
